@@ -123,6 +123,7 @@ input Filter {
   size: Size
   tag: ID
   limit: Int = 10
+  pair: [Int]
 }
 `
 
@@ -512,6 +513,9 @@ type FilterIn struct {
 	Size   string
 	Tag    string
 	Limit  int
+	// Pair is a fixed-size Go array behind a GraphQL list: how many members a
+	// request gives is the request's business.
+	Pair [2]int
 }
 
 // ZooSchema is the schema-level object for reflection roots.
